@@ -114,6 +114,16 @@ def run_impl(case):
     obj = build(case)
     if case["op"] == "approx":
         fn = getattr(qv.utils, "approximate_%s_extrema" % case["fn"])
+        if case["form"] != "dict" and len(obj):
+            # an earlier life of the same object: the same keys with every coefficient an eighth of what it will be, asked
+            # for its extrema, then the coefficients set to their values in place (same keys, same number of terms).  What
+            # was answered then must not be what is answered now.
+            orig = list(obj.items())
+            for k, v in orig:
+                obj[k] = v / 8
+            fn(obj)
+            for k, v in orig:
+                obj[k] = v
         lo, hi = C.pure_call(fn, obj)
         return {"lo": str(C.toF(lo)), "hi": str(C.toF(hi))}
     mod = sys.modules['qubovert.sim._anneal_temperature_range']
